@@ -69,8 +69,8 @@ _H = [["history", "1", "12", "300"], ["history", "5", "6", "800"], ["history", "
 _SC = [["scan", "128", "k25", "k312", "k911", "k303"], ["scan", "8", "a", "b", "c", "d", "e", "f", "g", "h", "i", "j"], ["scan", "4", "a"],
        ["scan", "64", "k1", "k2", "k3", "k4", "k5", "k6", "k7", "k8", "k9", "k10", "k11", "k12"]]
 BOUNDED_SCEN = {
-    "C01": _H + [["putget", "5000"], ["putsweep"], ["keys"]], "C10": [["keys"]], "C02": [["reopen"], ["durable"], ["dbsync"]] + _H[:4], "C03": [["flushdur"], ["durable"], ["dbsync"]],
-    "C04": _SC + _H[:2], "C05": _H + [["reuse"]], "C06": [["reuse"], ["putsweep"]] + _H, "C07": [["bufsize", "131072"], ["bufsize", "1000"], ["reopen"], ["scan", "4", "a"]] + _H[:1],
+    "C01": _H + [["putget", "5000"], ["putsweep"], ["keys"]], "C10": [["keys"]], "C02": [["reopen"], ["durable"], ["dbsync"], ["names"]] + _H[:4], "C03": [["flushdur"], ["durable"], ["dbsync"]],
+    "C04": _SC + _H[:2], "C05": _H + [["reuse"]], "C06": [["reuse"], ["putsweep"], ["grow"]] + _H, "C07": [["bufsize", "131072"], ["bufsize", "1000"], ["reopen"], ["scan", "4", "a"]] + _H[:1],
     "C08": _H, "C09": [["putget", "5000"], ["putget", "70000"], ["putsweep"]], "C12": [["reopen"]], "C13": [["sigmut"]], "C15": [["readonly"]],
     "C14": [["bulk"]], "C16": [["flushdur"]], "C17": [["stats"]], "C18": [["determ"]],
 }
@@ -387,7 +387,7 @@ def check(prop, tier, args):
     cov["bounded_parts"] = bounded_parts
     cov["known_findings_reported"] = [f["oid"] for f, k in knowns]
     cov["undecided"] = undecided
-    cov["samples"] = [oid_sample(r) for r in fn_rows[:6]]
+    cov["samples"] = [oid_sample(r, ov) for r in sorted(fn_rows, key=lambda r_: -r_["obligations"])[:8]]
     cov["explanation"] = "obligations = postcondition clauses + call-site preconditions + 2 x loop-invariant clauses + termination measures + panic/assert sites of every function verified in this run (syntactic count from the generated unit) + CBMC checks of the complete Kani harnesses; bounded harnesses are listed separately and never counted"
     ev["violations"] = len(violations)
     ev["wall_s"] = round(time.time() - t0, 2)
@@ -407,8 +407,13 @@ def rslex_error():
     import rslex
     return rslex.LexError
 
-def oid_sample(r):
-    return {"function": r["fn"], "obligations": r["obligations"], "failed": r["failed"], "backend": r["backend"]}
+def oid_sample(r, ov=None):
+    d = {"function": r["fn"], "obligations": r["obligations"], "failed": r["failed"], "backend": r["backend"]}
+    fs = ov.fns.get(r["fn"]) if ov is not None else None
+    if fs is not None:
+        d["requires"] = " ".join(fs.requires.split())[:500]
+        d["ensures"] = " ".join(fs.ensures.split())[:900]
+    return d
 
 def shim_requires(text):
     """names of hand-written (trusted) functions that carry a `requires` — their call sites are obligations"""
